@@ -103,10 +103,33 @@ class PhaseA:
         self.params = f.all_params()
         self.selfname = f.params()[0] if (f.cls is not None and not f.is_static and f.params()) else None
         self.forced = set()
+        self.forced_tables = set()
         self.callable_params = set()
         for n in ast.walk(f.node):
             if isinstance(n, ast.Call) and isinstance(n.func, ast.Name) and n.func.id in self.params:
                 self.callable_params.add(n.func.id)
+        # local aliases of callable parameters:  fb = _identity if fn_block is None else fn_block
+        self.callable_alias = {}
+        called = {n.func.id for n in ast.walk(f.node) if isinstance(n, ast.Call) and isinstance(n.func, ast.Name)}
+        for n in ast.walk(f.node):
+            if isinstance(n, ast.Assign) and len(n.targets) == 1 and isinstance(n.targets[0], ast.Name) \
+                    and n.targets[0].id in called and isinstance(n.value, (ast.IfExp, ast.Name, ast.BoolOp)):
+                leaves = []
+                v = n.value
+                cand = [v.body, v.orelse] if isinstance(v, ast.IfExp) else (list(v.values) if isinstance(v, ast.BoolOp) else [v])
+                ok = True
+                for c in cand:
+                    if isinstance(c, ast.Name) and c.id in self.params:
+                        leaves.append(c.id)
+                    elif isinstance(c, ast.Name) and isinstance(prog.resolve_name(f.module, c.id), FuncInfo) \
+                            and _is_identity(prog.resolve_name(f.module, c.id)):
+                        pass
+                    else:
+                        ok = False
+                if ok:
+                    self.callable_alias[n.targets[0].id] = leaves
+                    self.callable_params.add(n.targets[0].id)
+        # parameters reassigned to an identity default:  if fn_block is None: fn_block = _identity
 
     # -- which variables are tracked ------------------------------------------
     def is_arrayish(self, name):
@@ -252,6 +275,12 @@ class PhaseA:
             return e.value.id
         if isinstance(e, ast.Name) and e.id in self.block_alias:
             return self.block_alias[e.id]
+        if isinstance(e, ast.Name) and e.id in self.forced_tables and e.id not in self.vals and e.id not in self.dicts:
+            # a parameter that receives a block table of a possibly-lazy array
+            t = f"<table {e.id}>"
+            if t not in self.state:
+                self.track(t, "L")
+            return t
         return None
 
     block_alias = {}
@@ -381,6 +410,11 @@ class PhaseA:
         if isinstance(t.value, ast.Name):
             d = t.value.id
             if isinstance(v, Val):
+                if v.var.startswith("<table "):
+                    # values of a handed-over block table leave it for another container: in this function
+                    # there is no array to re-attach them to, so the sign table cannot follow
+                    self.use("RAW", v.var, node, "block value of a handed-over block table stored into another container")
+                    return
                 same = v.key == key
                 self.dicts.setdefault(d, []).append((v.var, same, key))
             return
@@ -637,7 +671,9 @@ class PhaseA:
                         return None
                     if vs:
                         self.use("CALLBACK", vs[0].var, c, f"block value handed to callable parameter `{n}`", extra=n)
-                        return ("callback", n, vs[0])
+                        # the image stays a value of the same block (whether the map is linear is judged
+                        # where the callable is supplied)
+                        return Val(vs[0].var, vs[0].key)
                     return None
                 raw_all(f"backend function {name or n}")
                 return None
@@ -805,15 +841,15 @@ class PhaseA:
             if isinstance(v, Val):
                 self.use("RAW", v.var, c, "block value passed to a repository function")
         name0 = method or (tgt.name if tgt is not None else "")
-        for k_, v in [(None, v) for v in argvals] + list(kwvals.items()):
+        tables = []
+        for k_, v in [(i_, v) for i_, v in enumerate(argvals)] + list(kwvals.items()):
             if k_ in ("blocks", "phases") and name0 in ("modify", "copy_with"):
                 continue
             if isinstance(v, tuple) and v and v[0] == "blocksof":
-                self.use("RAW", v[1], c, "whole block table passed to a repository function")
+                tables.append((k_, v[1], self.state.get(v[1], "L")))
             elif isinstance(v, tuple) and v and v[0] == "dict" and k_ != "blocks":
-                for (sv, same, key) in v[1]:
-                    if sv != "__callback__":
-                        self.use("RAW", sv, c, "dict of block values passed to a repository function")
+                for sv in sorted({sv for (sv, same, key) in v[1] if sv != "__callback__"}):
+                    tables.append((k_, sv, self.state.get(sv, "L")))
         name_args = []
         for i, a in enumerate(c.args):
             if isinstance(a, ast.Name):
@@ -844,7 +880,7 @@ class PhaseA:
                 blocks_kw = (k.value, kwvals.get("blocks"))
         self.facts.calls.append({
             "node": c, "cands": cands, "target": tgt, "method": method, "super_of": super_of,
-            "recv": recv_var, "recv_state": rstate, "passed": passed, "name_args": name_args,
+            "recv": recv_var, "recv_state": rstate, "passed": passed, "name_args": name_args, "tables": tables,
             "lambda_args": {(i if not isinstance(i, str) else i): a for i, a in
                             list(enumerate(c.args)) + [(k.arg, k.value) for k in c.keywords]},
         })
@@ -882,6 +918,12 @@ class PhaseA:
             if g is not None and ("inplace" in g.all_params() or method in ("copy_with", "modify")):
                 sure = True
         return ("array", "L", sure, None)
+
+
+def _is_identity(fi):
+    body = [s for s in fi.node.body if not (isinstance(s, ast.Expr) and isinstance(s.value, ast.Constant))]
+    return len(body) == 1 and isinstance(body[0], ast.Return) and isinstance(body[0].value, ast.Name) \
+        and fi.params() and body[0].value.id == fi.params()[0]
 
 
 def _as_load(t):
